@@ -4,7 +4,10 @@ import (
 	"bytes"
 	"encoding/hex"
 	"io"
+	"strings"
 	"testing"
+
+	"verif/mon"
 )
 
 // Hand-encoded vectors (RFC 4251 §5 data types: uint32 big endian, string =
@@ -59,3 +62,51 @@ func TestDuplex(t *testing.T) {
 		t.Fatal("read on closed end succeeded")
 	}
 }
+
+func TestParseDumpAgreesWithMon(t *testing.T) {
+	d := dumpAll()
+	a, b := parseDump(d), mon.ParseDump(d)
+	if len(a) == 0 || len(a) != len(b) {
+		t.Fatalf("%d vs %d goroutines", len(a), len(b))
+	}
+	for i := range a {
+		if a[i].ID != b[i].ID || a[i].State != b[i].State || strings.Join(a[i].Frames, ";") != strings.Join(b[i].Frames, ";") {
+			t.Fatalf("goroutine %d differs: %+v vs %+v", i, a[i], b[i])
+		}
+	}
+	k, _, ok := waitFor(parseDump(sampleDeadlockDump), "sshfwd.opClose", "Close", "")
+	if !ok || k != "deadlock:forwardList.forward[chan send]-holds-mutex/remove[Mutex.Lock]" {
+		t.Fatalf("key %q ok=%v", k, ok)
+	}
+}
+
+const sampleDeadlockDump = `goroutine 30 [chan send]:
+golang.org/x/crypto/ssh.(*forwardList).forward(0x1, {0x2, 0x3})
+	/repo/ssh/tcpip.go:309 +0x265
+golang.org/x/crypto/ssh.(*forwardList).handleChannels(0x3e43dbcd8160, 0x3e43dbc965b0)
+	/repo/ssh/tcpip.go:270 +0x43a
+created by golang.org/x/crypto/ssh.(*Client).handleForwards in goroutine 29
+	/repo/ssh/tcpip.go:106 +0x8c
+
+goroutine 31 [chan receive]:
+golang.org/x/crypto/ssh.(*forwardList).handleChannels(0x3e43dbcd8160, 0x3e43dbc965b0)
+	/repo/ssh/tcpip.go:228 +0x50
+created by golang.org/x/crypto/ssh.(*Client).handleForwards in goroutine 29
+	/repo/ssh/tcpip.go:107 +0x8c
+
+goroutine 50 [sync.Mutex.Lock]:
+internal/sync.runtime_SemacquireMutex(0x6a0da0?, 0x1?, 0x3e43dbc2fea0?)
+	/go/src/runtime/sema.go:95 +0x25
+internal/sync.(*Mutex).lockSlow(0x3e43dbcd8160)
+	/go/src/internal/sync/mutex.go:149 +0x15d
+sync.(*Mutex).Lock(...)
+	/go/src/sync/mutex.go:46
+golang.org/x/crypto/ssh.(*forwardList).remove(0x3e43dbcd8160, {0x6c7f8e, 0x3}, {0x3e43dbca03a0, 0xa})
+	/repo/ssh/tcpip.go:283 +0x74
+golang.org/x/crypto/ssh.(*tcpListener).Close(0x3e43dbcdc1e0)
+	/repo/ssh/tcpip.go:360 +0xc7
+verif/sshfwd.opClose(...)
+	/verif/h/sshfwd/harness_test.go:874
+created by verif/sshfwd.(*env).doClose in goroutine 4
+	/verif/h/sshfwd/harness_test.go:1302 +0xb7d
+`
